@@ -243,7 +243,14 @@ def commit(bk, st):
             if pk is None:
                 continue
             if pk['type'] == 'PUBLISH':
-                if pk['qos'] == 0 or not pk['dup']:
+                again = bk.inflight(a, pk['id'], ('inflight', 'released')) if pk['qos'] else None
+                queued = next((r for r in bk.pubs[a] if r['stage'] == 'queued'), None)
+                if pk['qos'] and not pk['dup'] and again is not None and again['txs'] and (queued is None or queued['id'] != pk['id']):
+                    # the identifier of an exchange already on the wire, written again without DUP: a repeat, not a first transmission
+                    rec = again
+                    e['rec'] = rec; e['first'] = False
+                    rec['txs'].append((st.now, e['raw'], e['p'], q['conns'], st.idx, bk.jitter))
+                elif pk['qos'] == 0 or not pk['dup']:
                     # first transmission: the oldest queued record
                     rec = next((r for r in bk.pubs[a] if r['stage'] == 'queued'), None)
                     e['rec'] = rec; e['first'] = True
